@@ -456,18 +456,34 @@ def rule_crosscheck(rep):
 PANIC_MACROS = {"assert", "assert_eq", "assert_ne", "panic", "unreachable", "todo", "unimplemented", "debug_assert", "debug_assert_eq", "debug_assert_ne"}
 # explicit panic sites reviewed on today's tree: (file, function, construct, condition / receiver in normal form) -> why it cannot fire on a valid history
 PANIC_SITES = {
-    ("asynchro_fast.rs", "process_into_buffer", "debug_assert", "(self.chunk_size <= wave_out[chan].as_mut().len())"): "validate_buffers checked this length (R-C13-order)",
-    ("asynchro_sinc.rs", "process_into_buffer", "debug_assert", "(needed_len <= wave_out[chan].as_mut().len())"): "validate_buffers checked this length",
-    ("asynchro_sinc.rs", "process_into_buffer", "debug_assert", "(self.chunk_size <= wave_out[chan].as_mut().len())"): "validate_buffers checked this length",
-    ("synchro.rs", "process_into_buffer", "debug_assert", "(self.chunk_size_out <= wave_out[chan].as_mut().len())"): "validate_buffers checked this length",
-    ("synchro.rs", "process_into_buffer", "debug_assert", "(needed_len <= wave_out[chan].as_mut().len())"): "validate_buffers checked this length",
-    ("*", "get_sinc_interpolated", "assert", "((index + self.length) < wave.len())"): "kernel guard; holds by the loop-margin / provisioning rules (R-C03-margin, R-C03-provision, R-C03-alloc)",
-    ("*", "get_sinc_interpolated", "assert", "(subindex < self.nbr_sincs)"): "kernel guard; holds for oversampling factors >= the offsets (R-C03-subindex)",
-    ("*", "new", "assert", "((sinc_len % i:8) == i:0)"): "constructor-time; make_interpolator rounds sinc_len up to a multiple of 8",
-    ("synchro.rs", "new", ".unwrap", "fft.process(&mut filter_t,&mut filter_f)"): "constructor-time; buffer lengths match the plan (R-C01-ola lengths / plans)",
+    # conditions in canonical form (canon_site): $i = i-th parameter, % = a local.  The five debug_asserts of the process_into_buffer bodies are
+    # matched semantically below (they restate the length validate_buffers checked).
+    ("*", "get_sinc_interpolated", "assert", "(($1 + self.length) < $0.len())"): "kernel guard; holds by the loop-margin / provisioning rules (R-C03-margin, R-C03-provision, R-C03-alloc)",
+    ("*", "get_sinc_interpolated", "assert", "($2 < self.nbr_sincs)"): "kernel guard; holds for oversampling factors >= the offsets (R-C03-subindex)",
+    ("*", "new", "assert", "(($0 % i:8) == i:0)"): "constructor-time; make_interpolator rounds sinc_len up to a multiple of 8",
+    ("synchro.rs", "new", ".unwrap", "%.process(&mut %,&mut %)"): "constructor-time; buffer lengths match the plan (R-C01-ola lengths / plans)",
     ("synchro.rs", "resample_unit", ".unwrap", "self.fft.process_with_scratch(&mut self.input_buf,&mut self.input_f,&mut self.scratch_fw)"): "realfft only fails on length mismatch; lengths match the plans (R-C01-ola)",
     ("synchro.rs", "resample_unit", ".unwrap", "self.ifft.process_with_scratch(&mut self.output_f,&mut self.output_buf,&mut self.scratch_inv)"): "lengths match; bins 0 and N/2 are real (forward transform of real data times real-input filter transform, or zero-filled)",
 }
+
+
+def canon_site(e, fn):
+    """rename-invariant text of a panic condition: parameters become $<position> (receiver excluded), let-bound locals and loop/closure variables become %"""
+    params = [p["name"] for p in fn["params"] if p.get("name")]
+    env = {n: ir.path("$%d" % i) for i, n in enumerate(params)}
+    locs = set()
+    for x in walk(fn["body"]):
+        if x.get("k") == "let":
+            locs.update(ir.pat_names(x["pat"]))
+        elif x.get("k") == "for":
+            locs.update(ir.pat_names(x["pat"]))
+        elif x.get("k") == "closure":
+            for p in x["params"]:
+                locs.update(ir.pat_names(p))
+    for n in locs:
+        env.setdefault(n, ir.path("%"))
+    # a local that shadows a parameter with a value derived from it (let sinc_len = f(sinc_len)) still reads as the parameter
+    return nbit(ir.subst(e, env))
 
 
 def rule_panics(rep):
@@ -484,10 +500,10 @@ def rule_panics(rep):
             kind = cond = None
             if x.get("k") == "macro" and x["name"].split("::")[-1] in PANIC_MACROS:
                 kind = x["name"].split("::")[-1]
-                cond = nbit(x["args"][0]) if x.get("args") else x.get("tokens", "")
+                cond = canon_site(x["args"][0], fn) if x.get("args") else x.get("tokens", "")
             elif x.get("k") == "mcall" and x["name"] in ("unwrap", "expect", "unwrap_unchecked", "unwrap_err"):
                 kind = "." + x["name"]
-                cond = nbit(x["recv"])
+                cond = canon_site(x["recv"], fn)
             if kind is None:
                 continue
             seen += 1
